@@ -197,6 +197,57 @@ def index_sites(census, fns):
     return out
 
 
+STD_PRE_RE = re.compile(r'(vec::Vec::<T, A>::(remove|insert|swap_remove|drain|split_off|extend_from_within)$|slice::<impl \[T\]>::(swap|split_at|split_at_mut|chunks|chunks_exact|chunks_mut|windows|rchunks|rotate_left|rotate_right|copy_within|select_nth_unstable\w*)$|string::String::(remove|insert|insert_str|drain|replace_range|split_off|truncate)$|str::<impl str>::(split_at|split_at_mut)$|Iterator::step_by$|char::methods::<impl char>::(from_digit|to_digit|is_digit)$|VecDeque<T, A>::(remove|insert|swap|drain|split_off)$|f64>::clamp$|<impl (i|u)(8|16|32|64|128|size)>::(abs|pow|isqrt|ilog\w*|next_power_of_two|clamp)$)')
+
+
+def std_precondition_sites(census, fns):
+    """calls of std APIs that panic when a precondition on an index / range / radix / step argument is violated
+    -> [(fn_key, api, body, call, auto_class or None)]"""
+    from .core import origins
+    F = census.F
+    out = []
+    for fn in sorted(fns):
+        if not F.has_fn(fn):
+            continue
+        b = F.body(fn)
+        fk = census.fn_key(fn)
+        for c in b.calls:
+            m = STD_PRE_RE.search(c.target)
+            if not m:
+                continue
+            api = c.target.rsplit('::', 1)[-1]
+            recv = 'String' if 'string::String' in c.target else ('Vec' if 'vec::Vec' in c.target else ('slice' if 'slice::' in c.target else ('char' if 'char' in c.target else ('str' if 'str::' in c.target else 'num'))))
+            api = recv + '::' + api
+            auto = None
+            if api in ('Vec::drain', 'String::drain', 'Vec::extend_from_within') and len(c.args) > 1:
+                og = index_operand_origins(b, c.args[1])
+                g = str(c.callee.get('g'))
+                if 'RangeFull' in g or (og and all(o[0] == 'rangefull' for o in og)):
+                    auto = 'full-range'
+            elif api in ('char::to_digit', 'char::from_digit', 'char::is_digit') and len(c.args) > 1:
+                og = origins(b, c.args[1])
+                vals = [re.match(r'^(\d+)_u32$', o[1]) for o in og if o[0] == 'const']
+                if og and len(vals) == len(og) and all(v and 2 <= int(v.group(1)) <= 36 for v in vals):
+                    auto = 'const-radix'
+            elif api in ('slice::chunks', 'slice::chunks_exact', 'slice::windows', 'slice::rchunks', 'slice::chunks_mut') and len(c.args) > 1:
+                og = origins(b, c.args[1])
+                vals = [re.match(r'^(\d+)_usize$', o[1]) for o in og if o[0] == 'const']
+                if og and len(vals) == len(og) and all(v and int(v.group(1)) > 0 for v in vals):
+                    auto = 'const-nonzero-size'
+            elif api in ('Vec::insert', 'Vec::remove', 'String::remove', 'String::insert') and len(c.args) > 1:
+                og = origins(b, c.args[1])
+                if api.endswith('insert') and og and all(o[0] == 'const' and o[1].startswith('0_') for o in og):
+                    auto = 'insert-at-0'
+            elif api == 'num::clamp':
+                og = set()
+                for a in c.args[1:]:
+                    og |= origins(b, a)
+                if og and all(o[0] == 'const' for o in og):
+                    auto = 'const-bounds'
+            out.append((fk, api, b, c, auto))
+    return out
+
+
 INT_W = {'u8': 8, 'i8': 8, 'u16': 16, 'i16': 16, 'u32': 32, 'i32': 32, 'u64': 64, 'i64': 64, 'usize': 64, 'isize': 64, 'u128': 128, 'i128': 128}
 
 
